@@ -173,6 +173,11 @@ def norm_cmp(op, ea, eb):
         return x.val if isinstance(x, E) and x.op == 'const' and isinstance(x.val, int) and not isinstance(x.val, bool) else None
     ka, kb = const(ea), const(eb)
     if op in ('==', '!='):
+        for x, y in ((ea, eb), (eb, ea)):
+            if isinstance(x, E) and x.op == 'mux' and len(x.args) == 3 and isinstance(y, E) and y.op != 'mux':
+                # v == Mux(c, a, b) is Mux(c, v == a, v == b): a comparison against a selected constant reads like the
+                # per-case comparisons it stands for
+                return E('mux', (x.args[0], norm_cmp(op, y, x.args[1]), norm_cmp(op, y, x.args[2])), w=1)
         for x, k in ((ea, kb), (eb, ka)):
             if k in (0, 1) and isinstance(x, E) and x.w == 1 and x.op != 'const':
                 return x if (k == 1) == (op == '==') else invert(x)
@@ -450,6 +455,12 @@ def subscript(ip, base, idx, node=None):
         if st == -1 and lo is None and hi is None:
             return E('rev', (e,), w=w)
         if st not in (None, 1):
+            if isinstance(w, int) and isinstance(st, int) and all(x is None or isinstance(x, int) for x in (lo, hi)):
+                idx = list(range(w))[slice(lo, hi, st)]
+                if idx and st == -1 and idx == list(range(idx[0], idx[-1] - 1, -1)):
+                    return E('rev', (slice_of(e, idx[-1], idx[0] + 1),), w=len(idx))      # x[hi:lo:-1]: the bits in reverse order
+                if idx and all(isinstance(i_, int) for i_ in idx):
+                    return make_cat(ip, [slice_of(e, i_, i_ + 1) for i_ in idx])
             return E('call', ('stepslice', e, as_expr(ip, lo), as_expr(ip, hi), as_expr(ip, st)))
         if lo is None:
             lo = 0
@@ -1224,13 +1235,15 @@ def value_method(ip, meth, sv, args, kwargs, node):
             rv = as_expr(ip, rhs)
         return Stmt(e, rv, ip.loc(node))
     if meth in ('any', 'all', 'bool', 'xor'):
+        if e.op == 'const' and isinstance(e.val, int) and meth in ('any', 'bool'):
+            return E('const', val=int(e.val != 0), w=1)
         if e.w == 1 and meth in ('any', 'all', 'bool'):
             return e
         if meth in ('any', 'bool') and e.op == 'cat' and e.args and all(isinstance(a, E) and a.w == 1 for a in e.args):
             return E('|', e.args, w=1) if len(e.args) > 1 else e.args[0]      # Cat(a, b, c).any() is a | b | c
         if meth == 'all' and e.op == 'cat' and e.args and all(isinstance(a, E) and a.w == 1 for a in e.args):
             return E('&', e.args, w=1) if len(e.args) > 1 else e.args[0]
-        if meth in ('any', 'bool') and e.w is not None:
+        if meth in ('any', 'bool') and (e.w is not None or e.op in ('arr', 'slice', 'sig')):
             return E('!=', (E('const', val=0), e), w=1)        # same canonical form as `x != 0`
         return E('call', (meth, e), w=1)
     if meth == 'matches':
